@@ -178,6 +178,31 @@ Definition p_corr_bad (cs : list (N * pcase)) : list N :=
   map fst (filter (fun c => negb (content_eqb (replay (pc_log (snd c))) (expected (pc_mirror (snd c)) (pc_cmds (snd c)))
                                   && forallb (crash_ok (pc_log (snd c))) (pc_crashes (snd c)))) cs).
 
+(* provenance: whatever reaches the store under an item's id was reported by that very item (as an event or in a
+   sync answer), and the write task never deletes; [cmds] lists what each item reported *)
+Definition handled (ss : list wstep) : list cmd :=
+  flat_map (fun s => match s with
+                     | WHandle i (PVal v) _ => [CSet i v]
+                     | WHandle i (PMap o) _ => [CMap i o]
+                     | _ => []
+                     end) ss.
+Definition cmd_is_put (i : N) (v : Z) (c : cmd) : bool :=
+  match c with CSet j w => (j =? i) && (w =? v)%Z | _ => false end.
+Definition cmd_is_mop (i : N) (o : mop) (c : cmd) : bool :=
+  match c with CMap j o' => (j =? i) && mop_eqb o o' | _ => false end.
+Definition provenance_ok (cmds : list cmd) (l : list lentry) : bool :=
+  forallb (fun e => match e with
+                    | LPut i v => existsb (cmd_is_put i v) cmds
+                    | LMap i o => existsb (cmd_is_mop i o) cmds
+                    | LDelete _ => false
+                    | _ => true
+                    end) l.
+
 (* the property oracle on the history: everything published had been handed to the store before *)
 Definition p_oracle_bad (cs : list (N * pcase)) : list N :=
   map fst (filter (fun c => negb (log_ok persistent_item (pc_log (snd c)))) cs).
+
+(* the write task on its own (c05w): [pc_cmds] is what the scripted lanes reported *)
+Definition w_oracle_bad (cs : list (N * pcase)) : list N :=
+  map fst (filter (fun c => negb (log_ok persistent_item (pc_log (snd c))
+                                  && provenance_ok (pc_cmds (snd c)) (pc_log (snd c)))) cs).
